@@ -127,9 +127,93 @@ func runOne(s script, profile string, seed uint64, w *traceWriter) bool {
 			}
 		}
 	}()
+	r.deferE = profile == "c16" && r.status == "ok" && !r.aborted && !r.cfg.fresh && r.cfg.store == "" && s.idx%3 == 0 && r.srv != nil
 	r.finish()
+	if r.deferE {
+		r.epilogue(w, s.idx)
+		w.line("E", strconv.Itoa(s.idx), r.status)
+	}
 	r.teardown()
 	return !strings.HasPrefix(r.status, "stuck")
+}
+
+// epilogue: after the history has been judged (the model knows nothing of what follows; nothing of it is recorded):
+// a request issued in the window in which the client has dropped its connection and not yet made the new one.
+// The server closes; the receive loop reads the end of the stream, disconnects and is held before CreateConnection
+// (yield point "reconnecting"); a caller's request fails in its write - an error return, as on any broken connection -;
+// the loop is let go and reconnects with the same key.  Whatever the failed request left behind, a request issued
+// afterwards must be written and answered.
+func (r *run) epilogue(w *traceWriter, idx int) {
+	defer func() {
+		if x := recover(); x != nil {
+			switch e := x.(type) {
+			case stuck:
+				where, _ := blockedIn(e.stack)
+				r.viol("C16", "reconnect:stalled-after-a-failed-write:"+r.describe(e.what),
+					"after a request failed in its write while the client was between two connections (the server had closed, the client "+
+						"had not yet reconnected), "+r.describe(e.what)+" does not come back"+map[bool]string{true: " (blocked in " + where + ")", false: ""}[where != ""])
+				w.line("K", strconv.Itoa(idx), strings.ReplaceAll(firstLines(e.stack, 40), "\n", " | "))
+			case harnessTrouble:
+				fmt.Fprintln(os.Stderr, "HARNESS-TROUBLE (epilogue):", e.msg)
+				os.Exit(3)
+			default:
+				panic(x)
+			}
+		}
+	}()
+	p := r.sc.Parked(r.rx)
+	if p == nil || p.Point != "read" || r.closePending || r.srv.Sent() > r.reads {
+		return
+	}
+	for _, c := range r.callers {
+		if c.active != nil {
+			return // somebody is still in flight: not the situation this epilogue is about
+		}
+	}
+	r.note("epilogue:request-in-the-reconnect-window")
+	r.out.line("G", strconv.Itoa(idx), "epilogue")
+	r.silent = true
+	r.srv.CloseConn()
+	r.closePending = true
+	r.sc.Release(r.rx)
+	if ar := r.await(r.rx); ar.Point != "reconnect" {
+		return
+	}
+	r.holdReconn = true
+	r.sc.Release(r.rx)
+	if ar := r.await(r.rx); ar.Point != "reconnecting" {
+		trouble("epilogue: receive loop parked at %q instead of reconnecting", ar.Point)
+	}
+	// the window request
+	t := len(r.callers)
+	r.addCaller()
+	r.doCall(t, callSpec{kind: "obj", token: int64(7000000 + idx)})
+	wc := r.callers[t]
+	for i := 0; i < 3 && wc.active != nil; i++ {
+		if q := r.sc.Parked(wc.name); q != nil && (q.Point == "prelock" || q.Point == "idgen") {
+			r.doStep(wc.name)
+		}
+	}
+	windowResult := "still-running"
+	if len(wc.calls) > 0 && wc.calls[0].done {
+		windowResult = wc.calls[0].got
+	}
+	// the loop goes on: new connection, same key
+	r.holdReconn = false
+	r.sc.Release(r.rx)
+	r.rx = r.awaitNewRx()
+	r.conns++
+	if err := r.srv.WaitConn(r.conns, watchdog); err != nil {
+		trouble("%v", err)
+	}
+	r.closePending = false
+	r.wrapTransport()
+	if r.lock == wc.name {
+		r.lock = "" // (an error return releases the send lock; if it does not, the probe shows it)
+	}
+	r.lastClass = "request-after-a-failed-write-in-the-reconnect-window(window request: " + windowResult + ")"
+	r.probe()
+	r.out.line("G", strconv.Itoa(idx), "window="+windowResult)
 }
 
 // blockedIn finds the receive loop's goroutine in a dump and names the client function it is blocked in.
@@ -179,7 +263,11 @@ func (r *run) describe(actor string) string {
 	return show + ":" + r.lastClass
 }
 
-func (r *run) slog(l string) { r.out.line("S", strconv.Itoa(r.idx), l) }
+func (r *run) slog(l string) {
+	if !r.silent {
+		r.out.line("S", strconv.Itoa(r.idx), l)
+	}
+}
 
 func (r *run) playScript(lines []string) {
 	for n, l := range lines {
